@@ -50,6 +50,7 @@ UNITS = {
     "c05": {"kind": "exe", "src": ["units/c05_data_movement.cpp"]},
     "c05full": {"kind": "exe", "src": ["units/c05_data_movement.cpp"], "flags": ["-DVH_MASKS_FULL"]},
     "c04": {"kind": "exe", "src": ["units/c04_memory.cpp"]},
+    "c19": {"kind": "exe", "src": ["units/c19_constants.cpp"]},
     "c02": {"kind": "exe", "src": ["units/c02_fp_basic.cpp"], "aux": {"ref": {"src": "common/ref.cpp", "flags": ["-ffp-contract=off", "-fno-builtin"]}}, "link": ["ref"]},
 }
 ALL22 = "every architecture this CPU executes: 20 x86 (sse2 ... avx512vnni<avx512vbmi2>) + emulated<128>, emulated<256>"
@@ -250,5 +251,30 @@ PROPS = {
                 "(API form, type, arch, aligned?, offset in page) / (gather|scatter, table side, index pattern); " + ALL22,
         "assumptions": COMMON_ASSUME + ["aligned forms only with pointers that are multiples of A::alignment(); scatter only with pairwise distinct indices"],
         "floor": {"quick": 10**5, "thorough": 10**6},
+    },
+    "C19": {
+        "technique": "runtime monitoring of template instantiations: each constant pack converted to a run-time batch and compared lane by lane with the pack; constexpr operators "
+                     "against lane-wise scalar operations; constant-parameter APIs against their run-time form / index model",
+        "level_text": "For every architecture and element type a fixed family of packs (one-hot and all-but-one for every lane, arange, constant, alternating, small and "
+                      "full-range pseudo-random, prefix) is instantiated through make_batch_constant / make_batch_bool_constant; as_batch(), the conversion operator, get(i) and "
+                      "mask() (<= 32 lanes) must report the pack; every constexpr operator result, converted to a batch, must equal the lane-wise scalar operation; select with a "
+                      "constant mask must equal select with the converted run-time mask bit for bit; constant swizzle must equal run-time swizzle with the converted index batch; "
+                      "shuffle, slide/rotate counts and insert indices are compared with their index model. The families are fixed at build time: exploration over programs.",
+        "level_note": "Packs are types, so VERIF_SEED only varies the data operands. Value packs exist for integral element types only (C++17 non-type parameters). "
+                      "Operator packs keep values small so that the scalar C++ expression is defined.",
+        "design_ref": "DESIGN.md section 6 C19",
+        "jobs": [
+            {"unit": "c19"},
+            {"unit": "c05", "tiers": ["quick"]},
+            {"unit": "c05full", "tiers": ["thorough"]},
+            {"unit": "c19", "variant": "clang", "tiers": ["thorough"]},
+            {"unit": "c19", "variant": "native", "tiers": ["thorough"]},
+        ],
+        "rule": "each evaluation = one lane of one instantiated constant (or of one constant-parameter API call) compared with the pack / scalar operation / run-time form; "
+                "families: one-hot and all-but-one for every lane, arange, constant, alternating, prefix, all-true/false, 4 random bool packs, 5 random value packs, 3 operator "
+                "pack pairs, plus the constant-mask families of the data-movement unit; distinct cell = (monitor, type, arch, family/operator); " + ALL22,
+        "assumptions": COMMON_ASSUME + ["mask() only for batches of at most 32 lanes (width of its int result)"],
+        "floor": {"quick": 10**5, "thorough": 10**5},
+        "build_failure_is_violation": True,
     },
 }
